@@ -31,6 +31,7 @@ ASSUMPTIONS = ["element and parent objects are truthy (falsy elements are C19's 
 @dataclass(eq=False)
 class E:
     n: Any = 0
+    subs: Any = field(default_factory=list)      # a second level of nesting (used by C17)
 
     def __repr__(self):
         return f"E{self.n}"
